@@ -3,8 +3,9 @@ CONSTANTS
   KeySet = {0, 1}
   PQ <- PQA
   Aligns = {FALSE, TRUE}
+  Phases = {0, 400, 1000, 2600}
   MaxOps = 7
   Emit = FALSE
   ErrEffects = TRUE
-INVARIANTS PTypeOK PCanonical ExactlyQuota
+INVARIANTS PTypeOK PCanonical ExactlyQuota AlignedEnd AlignedQuota
 CHECK_DEADLOCK FALSE
